@@ -535,6 +535,16 @@ def spec_sign_precomputed():
                 raise Mismatch('fill iteration without i != sk.l')
             return {}
         if (frm, to) == ('L1', 'L1'):
+            # the skip loop passes only attributes strictly below the free slot (an equal one names this slot and must be consumed by the fill)
+            pairs = [(k_[2], k_[3]) for (k_, lab_) in c if k_[0] == 'cmp' and k_[1] in ('<', '<=', '>', '>=', '==', '!=') and
+                     (('attrs.attrs[L:k].idx' in (k_[2], k_[3])))]
+            if not pairs:
+                raise Mismatch('the skip loop does not compare the current attribute with the free slot')
+            a_, b_ = pairs[-1]
+            other = b_ if a_ == 'attrs.attrs[L:k].idx' else a_
+            if order(c, 'attrs.attrs[L:k].idx', other) != {'lt'}:
+                raise Mismatch('the skip loop passes an attribute that is not strictly below the free slot (%s): a slot named by the list is left unfilled'
+                               % sorted(order(c, 'attrs.attrs[L:k].idx', other)))
             return {'L:k': S('L:k') + 1}
         if frm == 'L1' and to in ('L0', 'exit'):
             done = eq(c, 'L:k', 'ptr:attrs.length') if eq(c, 'L:k', 'ptr:attrs.length') is not None else eq(c, 'L:k', 'attrs.length')
